@@ -1,7 +1,7 @@
 (* C02 - A poll returns exactly the requested slice of the log, whichever tier holds it.
    FULL statement: every poll of every reachable state equals the slice of the abstract log
    (PartSpec.slice_offset / slice_last / slice_ts / slice_next), i.e. the model run is accepted by the monitor: *)
-From IggyV Require Import Base.Tactics Base.ListX Model.Part Model.PartSpec Proofs.PartBasics Proofs.PartHistory Proofs.PartCounts Proofs.CacheHistory Proofs.ReadExact Proofs.ReadPart Proofs.ReadHistory Proofs.OffsetsHistory Proofs.ExpiryBasics Proofs.ExpiryHistory.
+From IggyV Require Import Base.Tactics Base.ListX Model.Part Model.PartSpec Proofs.PartBasics Proofs.PartHistory Proofs.PartCounts Proofs.CacheHistory Proofs.ReadExact Proofs.ReadPart Proofs.ReadHistory Proofs.OffsetsHistory Proofs.ExpiryBasics Proofs.ExpiryHistory Proofs.DedupHistory Proofs.Refine.
 Open Scope N_scope.
 
 Definition C02_full : Prop :=
@@ -112,6 +112,44 @@ Proof.
   apply poll_offset_exact; [exact (e_R _ _ _ HE) | exact Hcount | exact Hstart].
 Qed.
 
+(* PROVED - REFINEMENT (Proofs/Refine.v): the specification monitor accepts EVERY run of the model, i.e. for every operation
+   list every poll by offset / first / last / next returns exactly the slice of the abstract log it asks for (by-timestamp polls excluded).  This is C02_full under the guards the real code itself enforces or the model needs: segment size > 0, poll counts >= 1
+   (System::poll_messages refuses count 0 before the partition is reached), offsets and log files below 2^32 (32-bit index
+   fields), send timestamps non-zero and never going backwards; by-timestamp polls are the one operation kind left out. *)
+Theorem C02_refinement : forall ops c t0, 0 < c_seg c -> times_ok 0 ops -> Forall poll_ok ops ->
+  Forall bounds_ok (prun_states (c, part_new c t0) ops) -> model_check c t0 ops = 0.
+Proof. exact model_refines_spec. Qed.
+
+(* the unguarded statement C02_full is FALSE of the model: a poll with count 0 (which the real server refuses with
+   InvalidMessagesCount before it reaches the partition) returns one message from the cache and none from the files *)
+Theorem C02_full_unguarded_refuted : ~ C02_full.
+Proof.
+  intros H.
+  specialize (H {| c_req := 10; c_seg := 1000; c_cache := false; c_idx := true; c_dedup := false; c_expiry := None; c_max := None; c_del_oldest := false |}
+                1 [OSend 5 [(1, 1, 0); (2, 1, 0)]; OPoll (KOffset 0) 0 false 1 false]).
+  vm_compute in H. discriminate H.
+Qed.
+
+(* the guards are met by ordinary histories (expiry, retention, restart, roll-over, dedup-free), and the monitor is not trivially true *)
+Example C02_refinement_nonvacuous :
+  let c := {| c_req := 2; c_seg := 150; c_cache := false; c_idx := false; c_dedup := false; c_expiry := Some 100; c_max := Some 600; c_del_oldest := true |} in
+  let ops := [OSend 10 [(1, 10, 0); (2, 10, 0)]; OPoll KNext 1 false 7 true; OSend 11 [(3, 40, 0)]; ORestart 12; OPoll KNext 5 false 7 true; ODump;
+              OSend 50 [(4, 10, 0); (5, 10, 0); (6, 10, 0)]; OMaintain 60; OPoll KLast 2 true 3 false; OSend 90 [(7, 1, 0)]; OSave; OGet false 7;
+              OSetCfg (Some 70) None; OSend 95 [(8, 1, 0); (9, 1, 0)]; OMaintain 125; OPoll (KOffset 1) 4 false 9 false; OPoll KFirst 3 false 9 false; ODump;
+              OStore true 3 8; OStore true 3 99; ODelete false 7; OPurge 130; OSend 140 [(10, 1, 0)]; OPoll KNext 9 true 3 true; ODump] in
+  0 < c_seg c /\ times_ok 0 ops /\ Forall poll_ok ops /\ Forall bounds_ok (prun_states (c, part_new c 1) ops) /\
+  (* the very same observations with one polled offset altered are rejected by the monitor *)
+  mon_check c (combine ops (prun0 c 1 ops)) = 0 /\
+  mon_check c (combine ops (map (fun x => match x with OMsgs cur ((o, i, t, l, h) :: r) => OMsgs cur ((o + 1, i, t, l, h) :: r) | y => y end) (prun0 c 1 ops))) <> 0.
+Proof.
+  intros c ops. split; [reflexivity|]. split; [cbn; repeat split; lia|]. split; [repeat (constructor; [cbn; try exact I; lia|]); constructor|].
+  split; [|vm_compute; split; [reflexivity | discriminate]].
+  apply Forall_forall. intros q Hq.
+  assert (Hall : forallb (fun q => (abase q <=? B32) && size_okb q) (prun_states (c, part_new c 1) ops) = true) by (vm_compute; reflexivity).
+  rewrite forallb_forall in Hall. specialize (Hall q Hq). apply andb_true_iff in Hall. destruct Hall as [H1 H2].
+  split; [apply N.leb_le; exact H1 | apply size_okb_ok; exact H2].
+Qed.
+
 Print Assumptions C02_read_sound_partial.
 Print Assumptions C02_disk_sound_partial.
 Print Assumptions C02_cache_tier_exact_partial.
@@ -119,3 +157,6 @@ Print Assumptions C02_offset_polls_exact.
 Print Assumptions C02_first_last_next_exact.
 Print Assumptions C02_offset_polls_nonvacuous.
 Print Assumptions C02_offset_polls_exact_expiry.
+Print Assumptions C02_refinement.
+Print Assumptions C02_full_unguarded_refuted.
+Print Assumptions C02_refinement_nonvacuous.
